@@ -175,6 +175,13 @@ def gen_kernels():
         txt = ("(* GENERATED: harness/pytrans_arr.py could not translate the current source: %s *)\n"
                "Definition translation_failed : True := untranslatable_source.\n" % str(ex).replace("*)", "* )"))
     _write_gen("Chi2Gen.v", txt)
+    import pytrans_str
+    try:
+        txt = pytrans_str.generate(REPO)
+    except pytrans_str.Unsupported as ex:
+        txt = ("(* GENERATED: harness/pytrans_str.py could not translate the current source: %s *)\n"
+               "Definition translation_failed : True := untranslatable_source.\n" % str(ex).replace("*)", "* )"))
+    _write_gen("GroKernelsGen.v", txt)
 
 
 def _write_gen(fname, txt):
